@@ -11,6 +11,7 @@ import (
 	"path"
 	"path/filepath"
 	"reflect"
+	"strings"
 
 	"github.com/akalin/gopar/rsec16"
 )
@@ -28,7 +29,34 @@ func (io defaultFileIO) ReadFile(path string) ([]byte, error) {
 }
 
 func (io defaultFileIO) FindWithPrefixAndSuffix(prefix, suffix string) ([]string, error) {
-	return filepath.Glob(prefix + "*" + suffix)
+	// Don't use filepath.Glob, since prefix and suffix are literal
+	// strings that may contain glob metacharacters.
+	dir, filePrefix := filepath.Split(prefix)
+	readDir := dir
+	if readDir == "" {
+		readDir = "."
+	}
+	infos, err := ioutil.ReadDir(readDir)
+	if err != nil {
+		return nil, err
+	}
+
+	var matches []string
+	for _, info := range infos {
+		name := info.Name()
+		if len(name) < len(filePrefix)+len(suffix) {
+			continue
+		}
+		if !strings.HasPrefix(name, filePrefix) || !strings.HasSuffix(name, suffix) {
+			continue
+		}
+		if dir == "" {
+			matches = append(matches, name)
+		} else {
+			matches = append(matches, filepath.Join(dir, name))
+		}
+	}
+	return matches, nil
 }
 
 func (io defaultFileIO) WriteFile(path string, data []byte) error {
